@@ -85,6 +85,7 @@ fn main() {
         "replay" => cmd_replay(&args),
         "selftest-determinism" => cmd_selftest(&args),
         "gen" => cmd_gen(&args),
+        "enospc-probe" => cmd_enospc_probe(),
         _ => {
             eprintln!("usage: simcheck run|replay|selftest-determinism ...");
             2
@@ -209,6 +210,9 @@ fn cmd_run(args: &Args) -> i32 {
     let known_sigs: Vec<String> = known.iter().map(|k| k.signature.clone()).collect();
     println!("simcheck: property={} tier={} VERIF_SEED={} runs={} jobs={}", id, tier, seed, runs, jobs);
     let start = std::time::Instant::now();
+    if id == "C18" {
+        observe_enospc();
+    }
     let reps = collect(spawn_workers(id, seed, 0, runs, jobs, &work, &known_sigs, false, deadline, tier));
     let wall_search = start.elapsed().as_secs_f64();
 
@@ -336,6 +340,63 @@ fn cmd_run(args: &Args) -> i32 {
     exit
 }
 
+static OBSERVATIONS: std::sync::Mutex<Option<serde_json::Value>> = std::sync::Mutex::new(None);
+
+/// C18, observation only (outside the property's stated fault domain): export into a full file
+/// system. dot-writer unwrap()s write errors and panics again in Drop while unwinding, which
+/// aborts the process, so this runs in a child process and only its exit status is recorded.
+fn cmd_enospc_probe() -> i32 {
+    let Ok(dir) = std::env::var("C18_FULL") else {
+        println!("unavailable");
+        return 0;
+    };
+    let cfg: Config = vec![ModeSpec { name: "INITIAL".into(), patterns: vec![PatternSpec { pattern: "a+|[b-z]{2,3}".into(), token_type: 1, lookahead: None }], transitions: vec![] }];
+    let sc = match sut::build(&cfg, BuildHow::Uncached) {
+        Ok(s) => s,
+        Err(_) => return 4,
+    };
+    match sc.generate_compiled_automata_as_dot("probe", std::path::Path::new(&dir)) {
+        Ok(()) => {
+            println!("returned Ok");
+            0
+        }
+        Err(e) => {
+            println!("returned Err: {}", e);
+            0
+        }
+    }
+}
+
+fn observe_enospc() {
+    if std::env::var("C18_FULL").is_err() {
+        return;
+    }
+    let exe = std::env::current_exe().unwrap();
+    let wrap: Vec<String> = std::env::var("SIMCHECK_WORKER_WRAP").ok().map(|w| w.split_whitespace().map(|x| x.to_string()).collect()).unwrap_or_default();
+    let mut c = if wrap.is_empty() {
+        Command::new(&exe)
+    } else {
+        let mut c = Command::new(&wrap[0]);
+        c.args(&wrap[1..]).arg(&exe);
+        c
+    };
+    let out = c.arg("enospc-probe").output();
+    let v = match out {
+        Ok(o) => {
+            use std::os::unix::process::ExitStatusExt;
+            serde_json::json!({
+                "what": "generate_compiled_automata_as_dot into a full file system (ENOSPC at write time); observation only, not part of the verdict",
+                "exit_code": o.status.code(),
+                "killed_by_signal": o.status.signal(),
+                "stdout": String::from_utf8_lossy(&o.stdout).trim().to_string(),
+                "stderr_tail": String::from_utf8_lossy(&o.stderr).lines().rev().take(3).collect::<Vec<_>>(),
+            })
+        }
+        Err(e) => serde_json::json!({"error": e.to_string()}),
+    };
+    *OBSERVATIONS.lock().unwrap() = Some(serde_json::json!({"enospc": v}));
+}
+
 fn faults_of(ops: &[Op]) -> Vec<String> {
     ops.iter()
         .enumerate()
@@ -411,6 +472,7 @@ fn write_evidence(prop: &dyn props::Prop, tier: &str, seed: u64, total: &WorkerR
             "event_log_hash": format!("{:016x}", total.combined_hash),
             "truncated_by_wall_clock_cap": total.truncated,
             "determinism_selftest": determinism,
+            "observations_outside_the_verdict": OBSERVATIONS.lock().unwrap().clone(),
             "components": {
                 "real": ["scnr (current /repo working tree, cfg scnr_verif, debug assertions + overflow checks on)", "regex-syntax", "dot-writer", "serde/serde_json", "seshat-unicode"],
                 "replaced": [],
@@ -419,7 +481,7 @@ fn write_evidence(prop: &dyn props::Prop, tier: &str, seed: u64, total: &WorkerR
         },
         "assumptions": assumptions
     });
-    let p = format!("{}/evidence/{}.json", root, id);
+    let p = std::env::var("SIMCHECK_EVIDENCE_OUT").unwrap_or_else(|_| format!("{}/evidence/{}.json", root, id));
     std::fs::write(&p, serde_json::to_string_pretty(&ev).unwrap()).expect("write evidence");
 }
 
